@@ -985,6 +985,20 @@ class Machine:
                     return out([env], self.ev_call(e, env, c))
                 env.texts[tn] = None            # any other member: the content is no longer known
                 return out([env])
+        if env.texts and e.get('k') == 'call' and e.get('a'):
+            # a followed text handed to a function by non-const reference (`appendReference(b, ref, table)`): the callee may
+            # write it, its content is no longer known
+            cal = [g for g in self.prog.fn(e.get('fn'), e.get('sig')) if g.get('params') is not None] if e.get('fn') else []
+            for j, a_ in enumerate(e['a']):
+                tn_ = self.text_name(a_, env)
+                if tn_ is None:
+                    continue
+                const_ref = False
+                if cal and j < len(cal[0]['params']):
+                    pt_ = T(cal[0], cal[0]['params'][j]['t'])
+                    const_ref = (not pt_.get('ref') and not pt_.get('ptr')) or bool(T(cal[0], pt_.get('to')).get('const'))
+                if not const_ref:
+                    env.texts[tn_] = None
         if short in self.d.get('intrinsics', {}):
             res = self.d['intrinsics'][short](self, env, e, c)
             return out(res if res is not None else [env])
